@@ -70,13 +70,38 @@ def user_syms(form):
     return out
 
 
+def live_atoms(node):
+    """As sx.walk_toks, but only positions Python evaluates: the annotation of a `lambda` parameter is carried by the AST
+    and printed by ast.unparse, yet never evaluated (a lambda has no __annotations__), so a child placed there is dropped."""
+    out = []
+
+    def go(n, in_lambda_args=False):
+        if isinstance(n, AbsStmt):
+            out.append(("S", n.tok))
+        elif isinstance(n, AbsExpr):
+            out.append(("E", n.tok))
+        elif isinstance(n, ast.Lambda):
+            go(n.args, True)
+            go(n.body)
+        elif isinstance(n, ast.arg) and in_lambda_args:
+            return
+        elif isinstance(n, ast.AST):
+            for c in ast.iter_child_nodes(n):
+                go(c, in_lambda_args)
+        elif isinstance(n, (list, tuple)):
+            for c in n:
+                go(c, in_lambda_args)
+    go(node)
+    return out
+
+
 def conservation(entry, sv):
     toks, form, out = structural.emit(entry, sv)
     if not out.ok:
         if sx.is_hy_user_error(out.exc):
             return ("hy-error", f"{type(out.exc).__name__}: {str(out.exc)[:120]}", None)
         return ("ok", f"raises {type(out.exc).__name__} (not a silent drop; classified by C10)", None)
-    atoms = sx.walk_toks([out.result.stmts, out.result._expr])
+    atoms = live_atoms([out.result.stmts, out.result._expr])
     have = {(k, id(t)) for k, t in atoms}
     missing = []
     for i, t in enumerate(toks):
